@@ -861,7 +861,7 @@ def base_maps(rng, spec, tier):
         maps.append(("gen:%d" % i, data))
     data, _ = gen.gen("editor", "mrgn-full")
     maps.append(("gen:mrgn-full", data))
-    data, _ = gen.gen("valid", "no-anywhere")       # a map whose location table has no entry 64 ("Anywhere")
+    data, _ = gen.gen("editor", "no-anywhere")      # a (consistent) map whose location table has no entry 64 ("Anywhere")
     maps.append(("gen:no-anywhere", data))
     return maps
 
